@@ -177,7 +177,7 @@ def generate(rseed, tier='quick'):
         elif x < 0.93 and [c for c in calibs if c[1] != mi]:
           calib = r.choice([c for c in calibs if c[1] != mi])[0]   # foreign statistics
         else:
-          calib = None                                              # quantize without statistics
+          calib = None if r.random() < 0.6 else 'EMPTY'             # quantize without / with empty statistics
       elif mine and r.random() < 0.25:
         calib = r.choice(mine)[0]
       ops.append({'op': 'quantize', 'q': q, 'calib': calib})
@@ -438,6 +438,11 @@ def execute(doc):
       if Q is None:
         continue
       cid = op.get('calib')
+      if cid == 'EMPTY' and 'EMPTY' not in calibs:
+        empty = {}
+        calibs['EMPTY'] = {'obj': empty, 'pristine': pickle.dumps(empty, protocol=4), 'model': None}
+        owned.add('calib:EMPTY', empty, 'calibration-result')
+        rec.fault('empty_stats')
       c = calibs.get(cid) if cid else None
       if cid and c is None:
         continue   # producer removed by shrinking
@@ -449,7 +454,7 @@ def execute(doc):
         pass
       if need and c is None:
         rec.fault('quantize_without_stats')
-      if c is not None and c['model'] != Q['model']:
+      if c is not None and c['model'] is not None and c['model'] != Q['model']:
         rec.fault('foreign_stats')
       rdig = core.digest(core.jcanon(Q['obj'].get_quantization_recipe()))
       if c is not None:
